@@ -3,6 +3,7 @@ package main
 import (
 	"encoding/json"
 	"fmt"
+	"go/types"
 	"math/rand"
 	"os"
 	"path/filepath"
@@ -266,37 +267,89 @@ func firstLine(s string) string {
 	return s
 }
 
-// evalCase runs moq for one case and applies the static oracles.
-func evalCase(moq *runner.Moq, j job, prop string) ([]ostatic.Finding, ostatic.Facts, runner.Result, string) {
-	c := j.c
-	res := moq.Run(cwdOf(j.dir, c), c.Args(), runner.Opts{})
+// invocation is one moq run plus what the oracle needs to know about it.
+type invocation struct {
+	lt      *ostatic.Tree
+	cwd     string
+	argv    []string
+	req     ostatic.Request
+	srcPath string
+}
+
+// analyseInvocation runs moq and applies the static oracles. When moq itself reports that its output is
+// not formattable Go, the witness text is obtained with -fmt noop, and for generic requests the self-check
+// line is identified as the culprit by re-running with -skip-ensure.
+func analyseInvocation(moq *runner.Moq, inv invocation) ([]ostatic.Finding, ostatic.Facts, *ostatic.Checked, runner.Result, string) {
+	res := moq.Run(inv.cwd, inv.argv, runner.Opts{})
 	if res.TimedOut {
-		return nil, ostatic.Facts{}, res, "timeout"
+		return nil, ostatic.Facts{}, nil, res, "timeout"
 	}
 	if res.Exit != 0 {
 		se := string(res.Stderr)
-		if strings.Contains(se, "go/format:") || strings.Contains(se, "goimports:") {
-			// moq noticed that its own output is not valid Go: obtain the witness text with -fmt noop
-			c2 := *c
-			c2.Fmt = "noop"
-			res2 := moq.Run(cwdOf(j.dir, c), c2.Args(), runner.Opts{})
-			f := []ostatic.Finding{{Prop: "C01", Msg: "moq's own output is not formattable Go: " + firstLine(se)}}
-			if res2.Exit == 0 {
-				chk := ostatic.CheckOutput(j.lt, c.Tree.SrcPath, c.Dest, c.PkgName, res2.Stdout)
-				more, facts := ostatic.Analyse(chk, requestOf(&c2, j.lt))
-				res.Stdout = res2.Stdout
-				return append(f, more...), facts, res, "ok"
-			}
-			return f, ostatic.Facts{}, res, "ok"
+		if !strings.Contains(se, "go/format:") && !strings.Contains(se, "goimports:") {
+			return nil, ostatic.Facts{}, nil, res, "inconclusive"
 		}
-		return nil, ostatic.Facts{}, res, "inconclusive"
+		f := []ostatic.Finding{{Prop: "C01", Msg: "moq's own output is not formattable Go: " + firstLine(se)}}
+		var facts ostatic.Facts
+		var chk *ostatic.Checked
+		res2 := moq.Run(inv.cwd, append([]string{"-fmt", "noop"}, inv.argv...), runner.Opts{})
+		if res2.Exit == 0 {
+			req := inv.req
+			req.Fmt = "noop"
+			chk = ostatic.CheckOutput(inv.lt, inv.srcPath, req.Dest, req.PkgName, res2.Stdout)
+			var more []ostatic.Finding
+			more, facts = ostatic.Analyse(chk, req)
+			f = append(f, more...)
+			res.Stdout = res2.Stdout
+		}
+		if !inv.req.SkipEnsure {
+			res3 := moq.Run(inv.cwd, append([]string{"-skip-ensure"}, inv.argv...), runner.Opts{})
+			if res3.Exit == 0 {
+				req := inv.req
+				req.SkipEnsure = true
+				chk3 := ostatic.CheckOutput(inv.lt, inv.srcPath, req.Dest, req.PkgName, res3.Stdout)
+				if chk3.ParseErr == nil && anyGeneric(chk3, req) {
+					f = append(f, ostatic.Finding{Prop: "C09", Msg: "the emitted self-check line of a generic interface is not valid Go (the same request formats with -skip-ensure): " + firstLine(se)})
+				}
+			}
+		}
+		return f, facts, chk, res, "ok"
 	}
-	chk := ostatic.CheckOutput(j.lt, c.Tree.SrcPath, c.Dest, c.PkgName, res.Stdout)
-	findings, facts := ostatic.Analyse(chk, requestOf(c, j.lt))
-	if prop == "C20" && len(c.Ifaces) >= 2 {
+	chk := ostatic.CheckOutput(inv.lt, inv.srcPath, inv.req.Dest, inv.req.PkgName, res.Stdout)
+	findings, facts := ostatic.Analyse(chk, inv.req)
+	return findings, facts, chk, res, "ok"
+}
+
+func anyGeneric(c *ostatic.Checked, req ostatic.Request) bool {
+	if c.SrcPkg == nil {
+		return false
+	}
+	for _, np := range req.Ifaces {
+		if obj := c.SrcPkg.Scope().Lookup(np.Iface); obj != nil {
+			switch n := obj.Type().(type) {
+			case *types.Named:
+				if n.TypeParams().Len() > 0 {
+					return true
+				}
+			case *types.Alias:
+				if n.TypeParams().Len() > 0 {
+					return true
+				}
+			}
+		}
+	}
+	return false
+}
+
+// evalCase runs moq for one case and applies the static oracles.
+func evalCase(moq *runner.Moq, j job, prop string) ([]ostatic.Finding, ostatic.Facts, runner.Result, string) {
+	c := j.c
+	inv := invocation{lt: j.lt, cwd: cwdOf(j.dir, c), argv: c.Args(), req: requestOf(c, j.lt), srcPath: c.Tree.SrcPath}
+	findings, facts, chk, res, verdict := analyseInvocation(moq, inv)
+	if verdict == "ok" && prop == "C20" && len(c.Ifaces) >= 2 && chk != nil && res.Exit == 0 {
 		findings = append(findings, soloCompare(moq, j, chk)...)
 	}
-	return findings, facts, res, "ok"
+	return findings, facts, res, verdict
 }
 
 // soloCompare generates every interface of a joint request alone and compares the mocks as types.
@@ -420,24 +473,8 @@ func runKnownStatic(run *evid.Run, moq *runner.Moq, work, prop string) {
 			fmt.Printf("harness: known finding %s tree does not load: %v\n", k.ID, lt.Errs)
 			continue
 		}
-		res := moq.Run(filepath.Join(dst, kc.Cwd), kc.Argv, runner.Opts{})
 		req := ostatic.Request{Ifaces: kc.Ifaces, Stub: kc.Stub, SkipEnsure: kc.SkipEnsure, WithResets: kc.WithResets, Dest: kc.Dest, PkgName: kc.PkgName, Fmt: kc.Fmt}
-		var findings []ostatic.Finding
-		if res.Exit != 0 {
-			se := string(res.Stderr)
-			if strings.Contains(se, "go/format:") || strings.Contains(se, "goimports:") {
-				findings = append(findings, ostatic.Finding{Prop: "C01", Msg: "moq's own output is not formattable Go: " + firstLine(se)})
-				argv := append([]string{"-fmt", "noop"}, kc.Argv...)
-				if res2 := moq.Run(filepath.Join(dst, kc.Cwd), argv, runner.Opts{}); res2.Exit == 0 {
-					chk := ostatic.CheckOutput(lt, kc.SrcPath, kc.Dest, kc.PkgName, res2.Stdout)
-					more, _ := ostatic.Analyse(chk, req)
-					findings = append(findings, more...)
-				}
-			}
-		} else {
-			chk := ostatic.CheckOutput(lt, kc.SrcPath, kc.Dest, kc.PkgName, res.Stdout)
-			findings, _ = ostatic.Analyse(chk, req)
-		}
+		findings, _, _, _, _ := analyseInvocation(moq, invocation{lt: lt, cwd: filepath.Join(dst, kc.Cwd), argv: kc.Argv, req: req, srcPath: kc.SrcPath})
 		var msgs []string
 		for _, f := range findings {
 			if f.Prop == prop {
